@@ -79,6 +79,8 @@ func (*footnoteASTTransformer).Transform
   callassert [referencedKept] ast.(*BaseNode).SortChildren#1: forall v addr {par(v)} :: (old(par(v)) == old(fnList()) && v != nil && fnIndex(v) >= 0) ==> par(v) == asnode(list)
   loop 2 inv [referencedKept] forall v addr {par(v)} :: (old(par(v)) == old(fnList()) && v != nil && fnIndex(v) >= 0) ==> par(v) == asnode(list)
   loop 3 inv [referencedKept] forall v addr {par(v)} :: (old(par(v)) == old(fnList()) && v != nil && fnIndex(v) >= 0) ==> par(v) == asnode(list)
+  // (stated where the first back-link is appended, so that the iteration that skips the inner loop has the facts at hand)
+  callassert [appendSite] ast.Node.AppendChild#1: arg0 != asnode(list) && par(arg1) == nil && arg1 != asnode(list) && kidsAreFn(asnode(list)) && (arg0 == footnote || par(arg0) == footnote)
   loop 2 inv WF() && list != nil && asnode(list) == old(fnList()) && par(asnode(list)) == old(par(fnList()))
   loop 2 inv footnote == nil || isKidOf(footnote, asnode(list))
   loop 2 inv kidsAreFn(asnode(list)) && refdBefore(asnode(list), footnote)
